@@ -146,7 +146,9 @@ Proof.
         destruct (find_key st (k_key r)) as [rp|] eqn:Ef.
         + apply find_key_some in Ef as [Hinp Hkp].
           destruct (Hli rp Hinp Hkp) as [Hl|Hl]; rewrite Hl in Esc.
-          * rewrite N.eqb_refl in Esc. injection Esc as <- _. intros r2 Hin2 Hk2.
+          * rewrite N.eqb_refl in Esc. unfold is_pess in Ep. replace (l_async l && negb (is_pess l)) with false in Esc
+              by (unfold is_pess; destruct (l_kind l); try discriminate; rewrite Bool.andb_false_r; reflexivity).
+            injection Esc as <- _. intros r2 Hin2 Hk2.
             apply in_map_iff in Hin2 as (r1 & <- & Hin1). destruct (bytes_eqb (k_key r1) (k_key r)) eqn:E2; [reflexivity|].
             cbn in Hk2. apply bytes_eqb_false in E2. contradiction.
           * injection Esc as <- _. intros r2 Hin2 Hk2. assert (r2 = rp) by (apply (sorted_uniq _ Hs); congruence). subst; exact Hl.
